@@ -81,6 +81,7 @@ def native_env(spec, bound):
   for k, v in spec.module_globals.items():
     if isinstance(v, UFn) and v.native is not None:
       env[k] = v.native
+      env[v.name] = v.native
   for k, v in C.SPECFNS.items():
     env.setdefault(k, v)
 
